@@ -35,7 +35,7 @@ impl<T: IntoVal, E: IntoVal, N: FnOnce()> Observer<T, E> for SubObs<N> {
 
 type Unsub = Box<dyn FnOnce()>;
 
-trait SubjApi: Clone + 'static {
+pub(crate) trait SubjApi: Clone + 'static {
   fn name() -> &'static str;
   fn new() -> Self;
   fn sub(&self, p: Probe) -> Unsub;
@@ -123,7 +123,7 @@ enum SubSt {
   Gone,
 }
 
-fn c06_history<S: SubjApi>(nops: usize) {
+pub(crate) fn c06_history<S: SubjApi>(nops: usize) {
   let mut subj = S::new();
   let mut clone2 = subj.clone();
   const NS: usize = 3;
@@ -262,7 +262,7 @@ fn c06_history<S: SubjApi>(nops: usize) {
 
 // ------------------------------------------------------------------ C12
 
-trait BehApi: Clone + 'static {
+pub(crate) trait BehApi: Clone + 'static {
   fn name() -> &'static str;
   fn new(v: Val) -> Self;
   fn sub(&self, p: Probe) -> Unsub;
@@ -307,7 +307,7 @@ macro_rules! impl_beh_api {
 impl_beh_api!(BehaviorSubject<Val, Subject<'static, Val, Val>>, "BehaviorSubject<Subject>");
 impl_beh_api!(BehaviorSubject<Val, SubjectThreads<Val, Val>>, "BehaviorSubject<SubjectThreads>");
 
-fn c12_history<B: BehApi>(nops: usize) {
+pub(crate) fn c12_history<B: BehApi>(nops: usize) {
   let init = Val::var();
   let mut cur = init.clone();
   let first = B::new(init);
@@ -422,14 +422,14 @@ fn c12_history<B: BehApi>(nops: usize) {
 // ------------------------------------------------------------------ C11
 
 #[derive(Clone, Copy, PartialEq, Debug)]
-enum ShareKind {
+pub(crate) enum ShareKind {
   PublishLocal,
   ShareLocal,
   ShareThreads,
 }
 
 /// counters: 0 = source subscriptions, 1 = upstream tap calls
-fn c11_history(kind: ShareKind, nops: usize) {
+pub(crate) fn c11_history(kind: ShareKind, nops: usize) {
   let cold = e::choose_bool();
   let cold_script = if cold { Some(draw_script(2, false)) } else { None };
   e::note(format!("{:?} over {} source", kind, if cold { "cold synchronous" } else { "hot" }));
@@ -692,7 +692,7 @@ fn keyfn(kind: u32, v: &Val) -> Val {
   }
 }
 
-fn c20_group_by(max_len: u32, threads_form: bool) {
+pub(crate) fn c20_group_by(max_len: u32, threads_form: bool) {
   GROUPS.with(|g| g.borrow_mut().clear());
   let kind = e::choose(4);
   let script = draw_script(max_len, true);
@@ -883,7 +883,7 @@ fn inner_obs_t(k: usize, spec: &InnerSpec) -> ObsT {
   }
 }
 
-fn c05_flatten(nsteps: usize, ninner: usize, threads_form: bool) {
+pub(crate) fn c05_flatten(nsteps: usize, ninner: usize, threads_form: bool) {
   let op = match e::choose(5) {
     0 => FlatOp::MergeAll(1 + e::choose(ninner as u32 + 1) as usize),
     1 => FlatOp::ConcatAll,
@@ -1144,7 +1144,7 @@ pub fn harnesses() -> Vec<HarnessDef> {
     format!("{} operations from subscribe / subscribe-with-nested-subscribe / unsubscribe-one / next / error / complete / retain / unsubscribe-subject over 3 subscribers, emission through the subject or a clone", if t { 7 } else { 5 })
   }
   add("c06_subject", vec!["C06", "C01"], "Subject: all operation histories vs the subscriber-set model; len/is_empty/is_finished after a terminal", b6, Box::new(|t| c06_history::<Subject<'static, Val, Val>>(if t { 7 } else { 5 })), 2_000_000, 30_000_000, true);
-  add("c06_subject_threads", vec!["C06", "C18"], "SubjectThreads, same histories (single logical thread)", b6, Box::new(|t| c06_history::<SubjectThreads<Val, Val>>(if t { 7 } else { 5 })), 2_000_000, 30_000_000, true);
+  add("c06_subject_threads", vec!["C06"], "SubjectThreads, same histories (single logical thread)", b6, Box::new(|t| c06_history::<SubjectThreads<Val, Val>>(if t { 7 } else { 5 })), 2_000_000, 30_000_000, true);
   add("c06_mutref_item", vec!["C06"], "MutRefItemSubject", b6, Box::new(|t| c06_history::<MutRefItemSubject<'static, Val, Val>>(if t { 6 } else { 4 })), 2_000_000, 10_000_000, true);
   add("c06_mutref_err", vec!["C06"], "MutRefErrSubject", b6, Box::new(|t| c06_history::<MutRefErrSubject<'static, Val, Val>>(if t { 6 } else { 4 })), 2_000_000, 10_000_000, true);
   add("c06_mutref_item_err", vec!["C06"], "MutRefItemErrSubject", b6, Box::new(|t| c06_history::<MutRefItemErrSubject<'static, Val, Val>>(if t { 6 } else { 4 })), 2_000_000, 10_000_000, true);
@@ -1152,22 +1152,22 @@ pub fn harnesses() -> Vec<HarnessDef> {
     format!("{} operations from next / next_by / clone / subscribe / unsubscribe / peek / complete / error over <=3 clones and 3 subscribers; symbolic values", if t { 7 } else { 5 })
   }
   add("c12_behavior", vec!["C12"], "BehaviorSubject over Subject vs the latest-value model; peek() decided by z3", b12, Box::new(|t| c12_history::<BehaviorSubject<Val, Subject<'static, Val, Val>>>(if t { 7 } else { 5 })), 3_000_000, 40_000_000, true);
-  add("c12_behavior_threads", vec!["C12", "C18"], "BehaviorSubject over SubjectThreads (single logical thread)", b12, Box::new(|t| c12_history::<BehaviorSubject<Val, SubjectThreads<Val, Val>>>(if t { 7 } else { 5 })), 3_000_000, 40_000_000, true);
+  add("c12_behavior_threads", vec!["C12"], "BehaviorSubject over SubjectThreads (single logical thread)", b12, Box::new(|t| c12_history::<BehaviorSubject<Val, SubjectThreads<Val, Val>>>(if t { 7 } else { 5 })), 3_000_000, 40_000_000, true);
   fn b11(t: bool) -> String {
     format!("{} operations from subscribe / unsubscribe / source event / connect over 3 subscribers; cold synchronous (<=2 items) and hot sources behind an upstream tap", if t { 7 } else { 6 })
   }
   add("c11_publish", vec!["C11"], "publish::<Subject>() + connect()", b11, Box::new(|t| c11_history(ShareKind::PublishLocal, if t { 7 } else { 6 })), 2_000_000, 30_000_000, true);
   add("c11_share", vec!["C11"], "share()", b11, Box::new(|t| c11_history(ShareKind::ShareLocal, if t { 7 } else { 6 })), 2_000_000, 30_000_000, true);
-  add("c11_share_threads", vec!["C11", "C18"], "share_threads()", b11, Box::new(|t| c11_history(ShareKind::ShareThreads, if t { 7 } else { 6 })), 2_000_000, 30_000_000, true);
+  add("c11_share_threads", vec!["C11"], "share_threads()", b11, Box::new(|t| c11_history(ShareKind::ShareThreads, if t { 7 } else { 6 })), 2_000_000, 30_000_000, true);
   fn b20(t: bool) -> String {
     format!("scripts of <= {} symbolic items x 3 terminals; key functions constant / identity / mod 2 / mod 3; hot and cold source; a probe per announced group, one on the outer stream, one on flat_map(groups)", if t { 5 } else { 4 })
   }
   add("c20_group_by", vec!["C20"], "group_by over Subject: group announcement order, per-group logs, terminal fan-out, flatten-back, all decided by z3 on symbolic keys", b20, Box::new(|t| c20_group_by(if t { 5 } else { 4 }, false)), 2_000_000, 30_000_000, false);
-  add("c20_group_by_threads", vec!["C20", "C18"], "group_by over SubjectThreads", b20, Box::new(|t| c20_group_by(if t { 5 } else { 4 }, true)), 2_000_000, 30_000_000, false);
+  add("c20_group_by_threads", vec!["C20"], "group_by over SubjectThreads", b20, Box::new(|t| c20_group_by(if t { 5 } else { 4 }, true)), 2_000_000, 30_000_000, false);
   fn b5(t: bool) -> String {
     format!("{} steps over the outer (emit next inner / complete / error) and every subscribed hot inner (item / complete / error); {} inners, each hot or cold-synchronous (<=2 symbolic items, complete or error); merge_all(1..=k+1), concat_all, flatten, flat_map, concat_map", if t { 7 } else { 6 }, 3)
   }
   add("c05_flatten", vec!["C05", "C01"], "flattening operators vs the queue model; live inner subscriptions counted against the limit; a RefCell double borrow is a caught panic", b5, Box::new(|t| c05_flatten(if t { 7 } else { 6 }, 3, false)), 3_000_000, 40_000_000, true);
-  add("c05_flatten_threads", vec!["C05", "C18"], "the _threads forms; re-acquisition of a held MutArc lock = would block forever", b5, Box::new(|t| c05_flatten(if t { 7 } else { 6 }, 3, true)), 3_000_000, 40_000_000, true);
+  add("c05_flatten_threads", vec!["C05"], "the _threads forms; re-acquisition of a held MutArc lock = would block forever", b5, Box::new(|t| c05_flatten(if t { 7 } else { 6 }, 3, true)), 3_000_000, 40_000_000, true);
   v
 }
